@@ -21,7 +21,7 @@ OCAML_DIR = os.path.join(verif.BUILD, "ocaml")
 MODELRUN = os.path.join(verif.BUILD, "modelrun")
 CACHE = os.path.join(verif.ROOT, ".cache", "beacon")
 
-MODEL_SOURCES = ["coq/Beacon/*.v", "coq/Beacon/Spec/*.v", "coq/Ssz/SszCore.v", "coq/Base/Sha256.v",
+MODEL_SOURCES = ["coq/Beacon/*.v", "coq/Beacon/Spec/*.v", "coq/Beacon/Impl/Genesis.v", "coq/Beacon/Impl/Shuffling.v", "coq/Pubkeys/*.v", "coq/Ssz/SszCore.v", "coq/Base/Sha256.v",
                  "coq/Extract/ExtractBeacon.v", "ocaml/modelrun.ml"]
 HARNESS_SOURCES = ["harness/chaingen/*.go", "harness/cmd/chain/*.go", "harness/hx/*.go", "harness/go.mod"]
 
@@ -49,7 +49,7 @@ def ensure_modelrun():
     want = _hash_files(srcs)
     if os.path.exists(MODELRUN) and os.path.exists(stamp) and open(stamp).read() == want:
         return True, "up to date"
-    rc, out = verif.coq_make(["Beacon/Run.vo"], timeout=1500)
+    rc, out = verif.coq_make(["Beacon/Run.vo", "Beacon/Impl/Genesis.vo"], timeout=1500)
     if rc != 0:
         return False, "coq build of Beacon/Run.vo failed:\n" + out[-3000:]
     os.makedirs(OCAML_DIR, exist_ok=True)
